@@ -336,6 +336,14 @@ class Engine:
             s.store_typed_init(o, 0, t, v)
         elif nm in s.ext_globals:
             s.ext_globals[nm](st, o)
+        elif nm.startswith(('_ZTT', '_ZTV')):
+            # VTT / vtable of a libstdc++.so class (iostreams): every slot points into a block of zeros, so that the
+            # inline constructor/destructor fragments that read a vbase offset (vptr[-3]) see offset 0
+            if 'dummy_vt' not in st.env:
+                d = st.alloc(512, 'const', 'dummy-vtable'); dobj = st.mem[d.obj]
+                for i in range(0, 512, 8): dobj.cells[i] = (8, 0)
+                st.env['dummy_vt'] = d.obj
+            for i in range(0, max(size, 8), 8): o.cells[i] = (8, P(st.env['dummy_vt'], 256))
         return o
     def store_typed_init(s, o, off, t, v):
         M = s.M; r = M.resolve(t); c = r.__class__
@@ -1014,11 +1022,12 @@ class Engine:
                 b.msg += '  [at %s :: %s]' % (s.where(st), (ins,).__repr__()[:160])
                 kf = s.known_filter(b, st) if s.known_filter else None
                 if kf is None: raise
-                # a listed known finding: record it, exclude exactly this failing condition and carry on, so that
-                # any *other* violation on this path is still found
+                # a listed known finding: record it, exclude exactly this failing condition (or, when the entry names
+                # concrete input values, exactly those values) and carry on, so that any *other* violation is still found
+                kf, excl = kf if isinstance(kf, tuple) else (kf, None)
                 s.known_hits.setdefault(kf, []).append((b, st.inputs, st.log[-6:]))
-                if b.cond is None: return ('known-finding', kf)
-                nc_ = z3.Not(b.cond)
+                if b.cond is None and excl is None: return ('known-finding', kf)
+                nc_ = excl if excl is not None else z3.Not(b.cond)
                 m = s.check(st, nc_)
                 if m is None: return ('known-finding', kf)
                 st.pc.append(nc_); st.model = m
